@@ -207,7 +207,11 @@ class WebSession(object):
         )
 
     def _process_authentication(self, response: Response):
-        if self._loop_type == LoopType.authentication:
+        # The credentials have been tried if the previous loop was an
+        # authentication retry or if they were sent along with the request
+        # (the host has asked for them earlier in this session).
+        if self._loop_type == LoopType.authentication or \
+                'Authorization' in self._next_request.fields:
             _logger.warning(_('Unable to authenticate.'))
             self._next_request = None
             self._loop_type = LoopType.normal
